@@ -161,6 +161,7 @@ def c06_ds(rng, cfg, value):
 
 
 def gen_c06(rng, tier, mult=1):
+    yield from gen_batches(rng, tier, which=("unquote", "utf8", "splitjoin"))
     n = (1800 if tier == "quick" else 40000) * mult
     styles = ["valid", "mutated", "random", "mutated", "valid", "badcfg"]
     for i in range(n):
@@ -178,7 +179,6 @@ def gen_c06(rng, tier, mult=1):
         if cfg.get("transform") and any("raise_error_if_malformed" in str(s) for s in cfg["transform"]):
             case["transform_may_raise"] = True
         yield case
-    yield from gen_batches(rng, tier, which=("unquote", "utf8", "splitjoin"))
     if tier != "quick":
         yield from small_scope_c06()
 
@@ -252,6 +252,7 @@ def c04_case(proto, cfg, tokens, style, lead=None):
 
 
 def gen_c04(rng, tier, mult=1):
+    yield from gen_batches(rng, tier, which=("normpath", "translate", "splitjoin", "unquote"))
     cfgs = c04_configs()
     k = 0
 
@@ -301,7 +302,6 @@ def gen_c04(rng, tier, mult=1):
         if rng.random() < 0.1:
             case["client_ip"] = "192.0.2.9"
         yield case
-    yield from gen_batches(rng, tier, which=("normpath", "translate", "splitjoin", "unquote"))
 
 
 # ------------------------------------------------------------------ stdlib validation batches
@@ -325,7 +325,7 @@ def gen_batches(rng, tier, which):
         yield from _chunks(items, 1000, "unquote")
     if "utf8" in which:
         alpha = [0x41, 0x7f, 0x80, 0xbf, 0xc1, 0xc2, 0xdf, 0xe0, 0xa0, 0x9f, 0xed, 0xef, 0xf0, 0x90, 0x8f, 0xf4, 0xf5, 0xff]
-        n = 3 if quick else 5
+        n = 3 if quick else 4
         items = [bytes(c).hex() for k in range(n + 1) for c in itertools.product(alpha, repeat=k)]
         for _ in range(500 if quick else 50000):
             items.append(bytes(rng.choice(alpha + [rng.randrange(256)]) for _ in range(rng.randrange(4, 9))).hex())
